@@ -36,6 +36,7 @@ def main():
             s = open(p).read()
             if s.count(old) != 1:
                 rows.append((pid, name, f"SKIP: pattern occurs {s.count(old)}x"))
+                print(*rows[-1], flush=True)
                 continue
             open(p, "w").write(s.replace(old, new))
             t0 = time.time()
